@@ -1250,10 +1250,27 @@ fn drive_c18f(sc: &E2Scenario, rep: &mut RunReport) {
             }
         }
     }
+    // a quarter of the sampled plans carry a second, transparent fault (EINTR / short transfer) at
+    // another read or write: two faults in one run, the second one must stay invisible
+    let mut rf2 = Rng::new(sc.faults.sample_seed ^ 0x2f2f);
+    let rw_calls: Vec<usize> = g.trace.iter().filter(|t| t.name == "read" || t.name == "write").map(|t| t.k).collect();
     for f in plan {
         let Some(t) = g.trace.get(f.k) else { continue };
         let side = classify(&t.name);
-        let (r, after) = rn.fresh(cmds, "json", h, rd, &[f.clone()]);
+        let mut faults = vec![f.clone()];
+        if !sc.faults.sweep && sc.faults.pinned.is_empty() && !rw_calls.is_empty() && rf2.chance(1, 4) && !f.action.contains("crash") {
+            let k2 = *rf2.pick(&rw_calls);
+            // the second fault has to come before the first one can end the run
+            if k2 < f.k {
+                let a2 = if rf2.chance(1, 2) { "eintr" } else { "short" };
+                faults.push(Fault { k: k2, action: a2.into(), arg: rf2.below(32) as i64 });
+                // the retry after EINTR, or the extra transfer after a short one, shifts the
+                // numbering of every later call by one
+                faults[0].k += 1;
+                rep.fault("second_fault_transparent");
+            }
+        }
+        let (r, after) = rn.fresh(cmds, "json", h, rd, &faults);
         let fired = r.trace.iter().any(|x| x.injected.as_deref() == Some(f.action.as_str()));
         if !fired {
             rep.probe("fault_not_reached");
